@@ -149,6 +149,8 @@ func (ex *Exec) step(f *frame, st *State, ins ssa.Instruction) {
 		if f.sweepOn() && ex.mayBeNil(f, x.Map) {
 			ex.oblige(f, st, "nilmap", ex.V.srcText(x.Map, x.Pos()), "", x.Pos(), not(eq(mv, intLit(0))), "assignment to entry in possibly nil map")
 		}
+		// a store into a nil map panics: the path continues only with a map
+		ex.assume(st, not(eq(mv, intLit(0))))
 		ex.lockCheckMap(f, st, x.Map, true, x.Pos())
 		ex.mapStore(st, m, mv, f.val(x.Key), f.val(x.Value))
 	case *ssa.MakeMap:
